@@ -69,3 +69,6 @@ MUTS = [
 # all seven are reported by ./check C11 / C20 --tier quick (families `scope` / `after`); six pass 201/201 ctest.
 # third round: c11_drop_empty_excess_args: in ExpandMacro `else if (z1 > OneMacro->ParamCount)` gets
 #   `&& (strlen(ArgStr[z1].str.p_str) > 0)`  -> reported by family `shifthole` (ctest 201/201)
+# fourth round: c11_shift_recomputes_wrong_tag: ExpandSHIFT: ComputeMacroStrings(RunTag) -> (FirstInputTag)  (family shiftloop)
+#               c20_endexpect_keeps_list: CodeENDEXPECT reports without unlinking, CodeEXPECT calls ClearExpectErrors() first
+#                                         (family expecthist, invariant PendingEmptyOutside); both pass 201/201 ctest
